@@ -15,7 +15,8 @@ RULE = ("grid cases: files of 56..400 bytes around segment boundaries, 1<=k<=N<=
         "bytes, k = 1..3) with one byte flipped at positions over the whole block incl. every 256 KiB boundary and the last bytes; one, several or all shares cut to 0..37 bytes of share data (shorter than "
         "the offset table) where the read must finish or fail; multi-segment files damaged only in a later segment of most shares, read whole and "
         "again on the same node (must finish or fail); all shares in use with the UEB length word set to 0 / too large or cut inside "
-        "the UEB body (must finish or fail); non-trivial = the scenario damaged at least one share that the "
+        "the UEB body (must finish or fail); an honest read followed by replacement of all shares by another file's shares under "
+        "the same key and reads through new nodes; non-trivial = the scenario damaged at least one share that the "
         "download touched; distinct = distinct (file parameters, scenario, damage)")
 META = {
     "title": "Immutable downloads never return wrong bytes",
@@ -1159,6 +1160,59 @@ def ueb_tails(ctx):
         ueb_tail_case(ctx, i)
 
 
+# ---- all shares replaced by another file's after an honest read -----------------------------------------------------------
+def substitution_case(ctx, i):
+    """(1) the file is read honestly in this process, (2) every share (or all but fewer than k) is replaced by the share
+    of ANOTHER file uploaded under the same AES key -- same storage index, internally consistent, with its own UEB and
+    hash trees -- (3) the original cap is read again through new node objects (and through the old one)."""
+    from core import grid as G
+    r = ctx.rng("subst", i)
+    k = r.choice([1, 2, 3])
+    n = r.choice([k, k + 1, k + 2, 2 * k + 1])
+    mss = r.choice([24, 64, 128])
+    size = r.choice([56, 100, 200])
+    data = bytes(r.getrandbits(8) for _ in range(size))
+    other = bytes(r.getrandbits(8) for _ in range(size if r.random() < 0.7 else r.choice([56, 150, 300])))
+    key = bytes(r.getrandbits(8) for _ in range(16))
+    nservers = r.choice([n, n, n + 1, max(1, n // 2)])
+    seed = r.getrandbits(30)
+    base = {"i": i, "subst": True, "k": k, "n": n, "size": size, "other_size": len(other), "max_segment_size": mss, "servers": nservers, "seed": seed}
+    outcomes = []
+    with G.Grid(num_clients=2, num_servers=nservers, k=k, n=n, happy=1, max_segment_size=mss, seed=seed, timeout=180) as g:
+        cap = g.run(g.upload_results(FixedKeyData(data, key))).get_uri()
+        old_node = fresh_node(g, cap)
+        reads0 = r.choice([[(0, None)], [(0, None), (0, None)], [random_ranges(r, size, mss)], []])
+        for (off, ln) in reads0:                       # the honest read(s)
+            status, err, chunks = read_through(g, old_node, off, ln, timeout=90)
+            judge(ctx, data, off, ln, status, err, chunks, dict(base, phase="honest", read=[off, ln]), "substitution")
+            if status != "ok":
+                ctx.oracle_fail("honest-read-failed", "read(%d, %r) of an undamaged file ended with %s" % (off, ln, err or status), case=base)
+        mine = {(s.server, s.shnum): g.read_share(s) for s in g.find_shares(cap)}
+        g.delete_shares(cap)
+        if len(other) != size or r.random() < 0.3:
+            g.set_encoding(k=k, n=n, happy=1, max_segment_size=r.choice([mss, 2 * mss]))
+        cap2 = g.run(g.upload_results(FixedKeyData(other, key))).get_uri()
+        theirs = g.find_shares(cap2)              # same storage index: they sit where the original shares sat
+        back = r.sample(sorted(mine), r.choice([0, 0, 0, max(0, k - 1)]))
+        for (srv, shnum) in back:                 # fewer than k original shares put back
+            place_share(g, cap, srv, shnum, mine[(srv, shnum)])
+        base.update(honest_reads=reads0, same_cap=(cap == cap2), originals_put_back=sorted(sh for _s, sh in back), substituted=len(theirs))
+        from allmydata import uri
+        nodes = [("new node", fresh_node(g, cap)), ("other client", g.client(1).nodemaker._create_immutable(uri.from_string(cap))), ("node used for the honest read", old_node)]
+        for (who, node) in nodes:
+            off, ln = r.choice([(0, None), (0, None), random_ranges(r, size, mss)])
+            status, err, chunks = read_through(g, node, off, ln, timeout=90)
+            judge(ctx, data, off, ln, status, err, chunks, dict(base, phase="after substitution", through=who, read=[off, ln]), "substitution")
+            outcomes.append(err or status)
+            ctx.case((i, who, off, ln), kind="substitution:%s:%s" % (who.split()[0], "ok" if status == "ok" else ("refused" if status == "error" else status)))
+    return {"outcomes": outcomes}
+
+
+def substitutions(ctx):
+    for i in range(ctx.n(12, 120)):
+        substitution_case(ctx, i)
+
+
 def run(ctx):
     classification(ctx)
     adversarial(ctx)
@@ -1166,6 +1220,7 @@ def run(ctx):
     short_truncations(ctx)
     later_segments(ctx)
     ueb_tails(ctx)
+    substitutions(ctx)
 
 
 def replay(ctx, record):
@@ -1179,6 +1234,8 @@ def replay(ctx, record):
         return later_segment_case(ctx, case["i"])
     if case.get("uebtail"):
         return ueb_tail_case(ctx, case["i"])
+    if case.get("subst"):
+        return substitution_case(ctx, case["i"])
     if "scenario" in case and "i" in case:
         return adversarial_case(ctx, case["i"])
     if "file" in case:
